@@ -158,6 +158,9 @@ static void draw(void) {
       if (shape[i] <= 2) sop_[i] = shape[i]; else if (sop_[i] < 1) sop_[i] = 1;
     } }
 #endif
+#ifdef SETUP_ONE_READ
+  ASSUME(T[0] >= sarg_[0]);
+#endif
 #ifdef KF_EXCLUDE_D9
   /* D9: require() calls the reader once; excluded: every reader that returns less than both the request and the rest of the stream */
   for (u64 i = 0; i <= LMAX; ++i) KNOWN_EXCLUDE(T[i] != LMAX);
